@@ -68,7 +68,7 @@ def _worker(args):
     from symx.core import Explorer
 
     t0 = time.time()
-    res = {"idx": idx, "name": "?", "stats": None, "cex": [], "known_hits": [], "incomplete": None, "notes": {}, "error": None}
+    res = {"idx": idx, "name": "?", "stats": None, "cex": [], "known_hits": [], "incomplete": None, "notes": {}, "error": None, "witness_ok": 0, "witness_bad": []}
     try:
         H = _load(pid)
         cases = H.cases(tier, seed)
@@ -112,6 +112,21 @@ def _worker(args):
             j["reproduced"] = bool(ok)
             j["replay_info"] = str(info)[:1500]
             res["cex"].append(j)
+        # witness traces: a model of a fully discharged path is run through the real code; the concrete oracle must agree
+        res["witness_ok"] = 0
+        res["witness_bad"] = []
+        from symx.core import Cex as _Cex2
+
+        for w in ex.witnesses:
+            try:
+                with redirect_stdout(buf):
+                    ok, info = case.replay(_Cex2("witness", w, "witness of a discharged path"))
+            except Exception as e:
+                ok, info = True, f"replay raised {type(e).__name__}: {e}\n{traceback.format_exc()[-500:]}"
+            if ok:
+                res["witness_bad"].append(str(info)[:500])
+            else:
+                res["witness_ok"] += 1
         seen = set()
         for label, rid, vals in ex.known_hits:
             if rid in seen:
@@ -164,6 +179,7 @@ def summarise(pid, tier, seed, H, results, pre_info, wall):
     errors, incompl, cex_all, known_hits = [], [], [], []
     samples = []
     notes = {}
+    wit_ok, wit_bad = 0, []
     for r in results:
         if r["error"]:
             errors.append(f"{r['name']}: {r['error']}")
@@ -180,6 +196,9 @@ def summarise(pid, tier, seed, H, results, pre_info, wall):
         if st["paths"] == 0 and "#" not in r["name"]:
             errors.append(f"{r['name']}: vacuous (0 completed paths)")
         cex_all.extend(r["cex"])
+        wit_ok += r.get("witness_ok", 0)
+        for wb in r.get("witness_bad", []):
+            wit_bad.append(f"{r['name']}: {wb}")
         known_hits.extend(r["known_hits"])
         for s in r.get("samples", []):
             if len(samples) < 6:
@@ -188,6 +207,9 @@ def summarise(pid, tier, seed, H, results, pre_info, wall):
             notes[k] = notes.get(k, 0) + v
     n_ob = sum(v["checked"] for v in obligations.values())
     n_dis = sum(v["discharged"] for v in obligations.values())
+    if wit_bad and not violations_placeholder(cex_all):
+        for wb in wit_bad[:3]:
+            incompl.append("witness disagreement (solver discharged the path, concrete replay reports a violation): " + wb)
     if n_ob == 0 and not errors:
         errors.append("vacuous: no obligation was checked")
     for lab in getattr(H, "REQUIRED_LABELS", []):
@@ -211,7 +233,8 @@ def summarise(pid, tier, seed, H, results, pre_info, wall):
         "cases": len({r["name"].split("#")[0] for r in results}),
         "states": tot["paths"],
         "transitions": tot["branch_decisions"],
-        "traces_validated_against_impl": len(cex_all) + len(known_hits) + int(pre_info.get("validated", 0)),
+        "traces_validated_against_impl": wit_ok + len(cex_all) + len(known_hits) + int(pre_info.get("validated", 0)),
+        "witness_traces": {"agree": wit_ok, "disagree": len(wit_bad), "what": "models of fully discharged paths replayed on the real unpatched code; the concrete oracle must report no violation"},
         "obligations": n_ob,
         "discharged": n_dis,
         "obligations_by_label": obligations,
@@ -241,6 +264,10 @@ def summarise(pid, tier, seed, H, results, pre_info, wall):
         "violations": len(violations),
     }
     return ev, violations, unrepro, errors, incompl, known_hits
+
+
+def violations_placeholder(cex_all):
+    return any(c["reproduced"] for c in cex_all)
 
 
 def _z3v():
